@@ -42,17 +42,23 @@ SPEC = dict(
 META = dict(
     technique="Lean 4 theorems about the scope chain, heap and call-frame functions the executable evaluator model calls + differential "
               "correspondence of the whole model with Runtime.Eval on exhaustive and random programs with probes and scope dumps",
-    level_text=("Proof (about the functions the evaluator model executes): call_does_not_write_enclosing_frames (this/super/parameters go into the fresh parentless frame: shadow, never overwrite), lookup_nearest (a read resolves to the first scope of the parent "
-                "chain that defines the name, state unchanged), assign_nearest_or_local (+ touches exactly one scope, heap untouched), let_local "
-                "(defines in the current scope whatever the outer scopes hold), inner_not_visible_outside (a definition in a scope that is not on "
-                "the chain changes no resolution and no value read), call frame = new scope index / chain of a linked frame = frame :: chain of "
-                "the DECLARATION scope (partial: whole frame construction cross-checked on every final state by the driver), "
-                "args_missing_default_extra_ignored, prims_by_value_containers_by_ref + read_after_write for one map cell with number and "
-                "string keys (the key rule repaired by 5e0a7a5), list cells, and read_after_write_paths for any nesting on acyclic tree values."),
-    level_note=("Tested only (differential, no theorem): len/add/del/concat against Go slice semantics, `new` (template and super "
-                "properties), `this` in methods, `init` once with arguments and the super inits. Number-key theorems assume == is reflexive on "
-                "the float of the index (not NaN; Lean's Float is opaque). Keys containing '.' are re-split by the code and by the model alike. "
-                "Programs whose result shows an error object / non-integral float text are outside the model (counted as not compared)."),
+    level_text=("Proof (about functions of Model/Eval.lean that runFunction / runBuiltin call — runFunction_uses_buildFrame, runBuiltin_uses, "
+                "addSuperClasses_order are the unfolding equations): lookup_nearest, assign_nearest_or_local (+ one scope touched, heap untouched), "
+                "let_local, inner_not_visible_outside; full call frames on buildFrame: call_fresh_locals (new scope index, only this/super/"
+                "parameters defined), closure_sees_definition_scope (frame linked to the DECLARATION scope), call_does_not_write_enclosing_frames "
+                "(every outcome), args_missing_default_extra_ignored; len_add_del_model: len, add = Go append with the aliasing cases (same "
+                "backing array when capacity suffices: shorter aliases keep their elements; new array otherwise: no alias changes), del(list,i) "
+                "shifts inside the same array, del(map,k) filters the string form of k, argument errors; read_after_write (map cell, number and "
+                "string keys, fix 5e0a7a5), prims_by_value_containers_by_ref, read_after_write_paths (any nesting, acyclic tree values); objects: "
+                "new_has_all_template_props_partial (every string key of a template arrives, inherited keys stay), own_property_wins, "
+                "method_this_partial (stored method = new function bound to the object cell), init_once_with_args (init of the finished object "
+                "runs exactly once with the constructor arguments, last)."),
+    level_note=("Tested only (differential, no theorem): add(l, v, i) insertion and concat against the model; the transitive statement over "
+                "super templates of new (induction over super lists missing) and that a method body reads `this` = the object (frame value not "
+                "tracked through parameter writes). Number-key theorems assume == is reflexive on the float of the index (not NaN; Lean's Float "
+                "is opaque); object key theorems are about string keys. Frame theorems assume parameter names without access path and that "
+                "evaluating a default leaves the scope in question and the unreachable new frame alone. Programs whose result shows an error "
+                "object / non-integral float text are outside the model (counted as not compared)."),
 )
 
 
